@@ -29,7 +29,10 @@ ASSUMPTIONS = [
     "get_trust_region_step (transparent wrapper)",
     "centre: no interpolation point may have a merit smaller than the centre's by more than ten times the documented "
     "tie tolerance 10*eps*max(n,npt)*max(1,|merit|); which of several points tied within rounding is the centre is "
-    "not judged (the scan order of the solver decides it)",
+    "not judged (the scan order of the solver decides it); right after every set_best_index, however, an *exact* merit "
+    "tie must have gone to the smaller violation when no other point lies within the tie tolerance of the least "
+    "merit (provable for the sequential scan; with a near-tie in between the scan is order dependent - seen on the "
+    "unchanged tree with radius_init = 1e-15 - and nothing is demanded)",
 ]
 STEP_CLASSES = [0.05, 0.3, 0.5, 1.0]
 RATIOS = [-1.0, 0.05, 0.1, 0.5, 0.7, 0.9]
@@ -186,6 +189,22 @@ def e1_roots(tier):
                         c["monitors"] = ["tr"]
                         c["explore"] = 0
                         out.append(c)
+    # exact merit ties: objectives symmetric about x0, asymmetric constraints (penalty 0 at the start)
+    for n in ns:
+        for pats in [("free",) * n, ("wide",) * n]:
+            x0 = alpha.x0_from(pats, "in")
+            for cons in ["ball_le", "cubic_le", "lin_le", "nl_vec"]:
+                for kind in ["quad", "abs"]:
+                    c = alpha.base_case(n, pats, "in", kind, cons, options={"maxfev": 60 * n})
+                    c["obj"] = {"kind": kind, "a": [1.0] * n, "c": list(x0)} if kind == "quad" else \
+                        {"kind": "abs", "c": list(x0)}
+                    c["monitors"] = ["tr", "centre"]
+                    c["explore"] = 0
+                    c["tag"]["special"] = "exact-ties"
+                    out.append(c)
+    for c in out:
+        if "centre" not in c["monitors"]:
+            c["monitors"] = c["monitors"] + ["centre"]
     return out
 
 
@@ -221,6 +240,27 @@ def e1_oracle(rec, table=None):
                          "what": f"iteration {i + 1}: centre {b} has merit {m[b]!r} but point {k} has {m[k]!r} "
                                  f"(penalty {pen})"})
             break
+    # right after every set_best_index (same merit function, same state, so values are bit-identical to the ones
+    # the solver compared): among the points whose merit is exactly minimal the centre has the smallest violation,
+    # and the centre's merit is minimal up to the documented tolerance per possible tie replacement
+    for j, (b, m, r) in enumerate(rec.notes.get("centres", [])):
+        mmin = min(m)
+        tol = 10.0 * EPS * max(len(m), 2) * max(abs(m[b]), 1.0)
+        if not (m[b] <= mmin + len(m) * tol):
+            viol.append({"key": "run:centre-not-least-merit",
+                         "what": f"after set_best_index #{j + 1}: centre {b} has merit {m[b]!r}, least merit is {mmin!r}"})
+            break
+        # exact ties, and no other point within the tie tolerance of the least merit (otherwise the solver's
+        # sequential scan may legitimately pass through a near-tie and end on any of the exactly tied points)
+        tolmax = 10.0 * EPS * max(len(m), 2) * max(max(abs(v) for v in m), 1.0)
+        clean = all(v == mmin or v >= mmin + tolmax for v in m)
+        if m[b] == mmin and clean:
+            better = [k for k in range(len(m)) if m[k] == mmin and r[k] < r[b]]
+            if better:
+                viol.append({"key": "run:exact-tie-not-smaller-violation",
+                             "what": f"after set_best_index #{j + 1}: points {better} tie the centre {b} exactly in "
+                                     f"merit ({mmin!r}) and have a smaller violation ({[r[k] for k in better]} < {r[b]})"})
+                break
     for k_rm, best, with_new in rec.notes.get("removals", []):
         if with_new and k_rm == best:
             viol.append({"key": "run:centre-chosen-for-replacement",
@@ -236,6 +276,11 @@ def e1_oracle(rec, table=None):
 def _e1_stats(rec, table, stats):
     stats["iterations_checked"] = stats.get("iterations_checked", 0) + len(rec.tr)
     stats["removals_checked"] = stats.get("removals_checked", 0) + len(rec.notes.get("removals", []))
+    for b, m, r in rec.notes.get("centres", []):
+        stats["centres_checked"] = stats.get("centres_checked", 0) + 1
+        tolmax = 10.0 * EPS * max(len(m), 2) * max(max(abs(v) for v in m), 1.0)
+        if sum(1 for v in m if v == min(m)) > 1 and all(v == min(m) or v >= min(m) + tolmax for v in m):
+            stats["exact_merit_ties"] = stats.get("exact_merit_ties", 0) + 1
     if any(t["penalty"] > 0 for t in rec.tr):
         stats["runs_with_penalty"] = stats.get("runs_with_penalty", 0) + 1
 
@@ -281,7 +326,8 @@ def execute(tier, seed, limit=0):
         agg.add(out)
     s = agg.stats
     herr = []
-    for k in ("iterations_checked", "removals_checked", "runs_with_penalty", "status_0", "ctrl_runs", "ctrl_status_0"):
+    for k in ("iterations_checked", "removals_checked", "runs_with_penalty", "status_0", "ctrl_runs", "ctrl_status_0",
+              "centres_checked", "exact_merit_ties"):
         if not s.get(k):
             herr.append(f"non-vacuity counter {k} is zero")
     if not res["flags"].get("at_final"):
